@@ -5,7 +5,9 @@
    panic or a hang of the real callback is a case of its own. *)
 From Ship Require Import Base MdnsMap.
 
-Inductive c08m_case := MHist (k : c17_case) | MCrash (hang : bool).
+(* MTxtOk: a raw TXT slice (a SHIP record with 0-3 mutations: items without '=', with several,
+   with an empty key, empty items, duplicates) went through parseTxt and the callback and both returned *)
+Inductive c08m_case := MHist (k : c17_case) | MCrash (hang : bool) | MTxtOk.
 
 Definition V_MDNS_PANIC : N := 130.
 Definition V_MDNS_HANG : N := 131.
@@ -15,4 +17,5 @@ Definition check_mdns_C08 (c : c08m_case) : codes :=
   | MHist k => filter (N.eqb 1) (check_c17 k)
   | MCrash false => [V_MDNS_PANIC]
   | MCrash true => [V_MDNS_HANG]
+  | MTxtOk => []
   end.
